@@ -13,7 +13,7 @@ CONSTANTS
   MaxReg = @@MAXREG@@
   MaxClock = 1000
   MaxHist = 99
-  Shapes = {"identity", "jsonString", "jsonMap"}
+  Shapes = @@SHAPES@@
   Mode = "@@MODE@@"
   LifecycleFirst = @@LF@@
   SkipLocalTarget = @@SKIP@@
